@@ -1,6 +1,7 @@
 """Miscellaneous utilities."""
 
 import functools
+import math
 import re
 import typing
 from itertools import count
@@ -130,7 +131,11 @@ class NameDatabase:
         return name
 
     def __getitem__(self, value):
-        if isinstance(value, (int, float, str)):
+        if type(value) in (int, str) or (
+            type(value) is float and value == value and abs(value) != math.inf
+        ):
+            # Only values whose repr is a literal (not enum members or other
+            # subclasses, not inf / nan): everything else is injected
             return repr(value)
         if id(value) in self.names:
             return self.names[id(value)]
